@@ -91,3 +91,22 @@ def run(ctx):
         if m4:
             ctx.violation("loop vs unrolling: " + m4, {"kind": "loads_equal", "a": loop, "b": unrolled, "check_vars": False})
     common.loads_corr(ctx, texts, "LOADS(loop)")
+    # loop values beyond 64 bits are exact Python integers (no arithmetic is applied to them)
+    big = []
+    for _ in range(ctx.n(20, 200)):
+        v = ctx.rng.choice([2 ** 63, 2 ** 63 + ctx.rng.randrange(1, 1000), 2 ** 64 + 1, 10 ** 25])
+        if ctx.rng.random() < 0.5:
+            hdr, vals = "[%d, 3, %d]" % (v, v + 1), [v, 3, v + 1]
+        else:
+            hdr, vals = "%d:%d" % (v, v + 2), [v, v + 1]
+        loop = "name l\nversion 1.0\n\nfor int k_ in %s\n    G(k_, a=k_) | 0\nH | 1\n" % hdr
+        unrolled = "name l\nversion 1.0\n\n" + "".join("G(%d, a=%d) | 0\n" % (x, x) for x in vals) + "H | 1\n"
+        ctx.count("loop-values-beyond-64-bits")
+        ctx.case(loop, nontrivial=True)
+        big.append(loop)
+        msg = oracles.o_loads_equal(loop, unrolled)
+        if msg:
+            ctx.violation("loop vs unrolling: " + msg, {"kind": "loads_equal", "a": loop, "b": unrolled, "check_vars": False})
+    common.loads_corr(ctx, big, "LOADS(big loop values)")
+    # interaction stream (harness/interact.py): the executable model is the oracle
+    common.interaction_stream(ctx, ctx.n(200, 2500))
